@@ -221,9 +221,23 @@ func (g *G) returnStmt() Tri {
 	}
 	var es []Tri
 	for _, r := range g.retT {
+		if r.K == KString {
+			g.needScap()
+			es = append(es, tf("scap(%s)", g.value(r, 2)))
+			continue
+		}
 		es = append(es, g.value(r, 2))
 	}
 	return tf("%s %s", kw, join(es, ", "))
+}
+
+// needScap bounds string growth: statements may run many times (loops,
+// repeated calls) and s = s + s would double the output volume each time.
+func (g *G) needScap() {
+	g.helper("scap", tl(
+		"func scap(s: string) => string {\n\tif len(s) > 40 {\n\t\treturn s[0:40]\n\t}\n\treturn s\n}",
+		"函数·scap(s: 字串) => 字串:\n\t如果 长度(s) > 40:\n\t\t返回 s[0:40]\n\t完毕\n\t返回 s\n完毕",
+		"func scap(s string) string {\n\tif len(s) > 40 {\n\t\treturn s[0:40]\n\t}\n\treturn s\n}"))
 }
 
 func paramList(ps []*Var) Tri {
